@@ -164,7 +164,7 @@ func ruleMOD(c *Ctx) {
 		if nc == nil || len(nc.Args) < 3 {
 			probs = append(probs, "fork does not call NewCompiler")
 		} else {
-			if id, ok := ast.Unparen(nc.Args[1]).(*ast.Ident); !ok || id.Name != "symbolTable" {
+			if !isObj(p, nc.Args[1], paramOfType(p, fork, "*SymbolTable")) {
 				probs = append(probs, "child compiler is not given fork's symbolTable parameter")
 			}
 			if !isNilIdent(nc.Args[2]) {
@@ -188,7 +188,7 @@ func ruleMOD(c *Ctx) {
 				return false
 			}
 			f, _ := FieldSel(p, as.Lhs[0])
-			return f != nil && f.Name() == "modulePath" && w.Src(as.Rhs[0]) == "modulePath"
+			return f != nil && f.Name() == "modulePath" && isObj(p, as.Rhs[0], paramOfType(p, fork, "string"))
 		})
 		if !pathSet {
 			probs = append(probs, "child.modulePath is not set to the module's path")
@@ -218,7 +218,7 @@ func ruleMOD(c *Ctx) {
 			if is, ok := cm.Body.List[0].(*ast.IfStmt); ok && is.Init != nil {
 				if containsNode(is.Init, func(n ast.Node) bool {
 					call, ok := n.(*ast.CallExpr)
-					return ok && isMethodOf(Callee(p, call), p.Types, "Compiler", "checkCyclicImports") && len(call.Args) == 2 && w.Src(call.Args[1]) == "modulePath"
+					return ok && isMethodOf(Callee(p, call), p.Types, "Compiler", "checkCyclicImports") && len(call.Args) == 2 && isObj(p, call.Args[1], paramOfType(p, cm, "string"))
 				}) && terminates(is.Body) {
 					good = true
 				}
@@ -235,8 +235,11 @@ func ruleMOD(c *Ctx) {
 				if !ok || b.Op != token.EQL {
 					return false
 				}
-				s := w.Src(b)
-				return strings.Contains(s, ".modulePath") && strings.Contains(s, "modulePath")
+				// <compiler>.modulePath == <the path parameter>, either way round
+				fx, _ := FieldSel(p, b.X)
+				fy, _ := FieldSel(p, b.Y)
+				pp := paramOfType(p, cc, "string")
+				return (fx != nil && fx.Name() == "modulePath" && isObj(p, b.Y, pp)) || (fy != nil && fy.Name() == "modulePath" && isObj(p, b.X, pp))
 			})
 			if !cmp {
 				probs = append(probs, "does not compare the compiler's modulePath with the imported path")
@@ -247,7 +250,7 @@ func ruleMOD(c *Ctx) {
 					return false
 				}
 				call, ok := r.Results[0].(*ast.CallExpr)
-				return ok && isMethodOf(Callee(p, call), p.Types, "Compiler", "checkCyclicImports") && strings.Contains(w.Src(call.Fun), "parent.") && len(call.Args) == 2 && w.Src(call.Args[1]) == "modulePath"
+				return ok && isMethodOf(Callee(p, call), p.Types, "Compiler", "checkCyclicImports") && strings.Contains(w.Src(call.Fun), "parent.") && len(call.Args) == 2 && isObj(p, call.Args[1], paramOfType(p, cc, "string"))
 			})
 			if !rec {
 				probs = append(probs, "does not return parent.checkCyclicImports(node, modulePath) (the whole import stack must be walked)")
@@ -311,6 +314,12 @@ func ruleMOD(c *Ctx) {
 						if call, ok := es.X.(*ast.CallExpr); ok && isMethodOf(Callee(p, call), p.Types, "Compiler", "emit") {
 							parts := []string{}
 							for _, a := range call.Args[1:] {
+								// a call of Compiler.addConstant is described by what it is,
+								// not by what the receiver is called
+								if ac, ok := ast.Unparen(a).(*ast.CallExpr); ok && isMethodOf(Callee(p, ac), p.Types, "Compiler", "addConstant") {
+									parts = append(parts, "c.addConstant(…)")
+									continue
+								}
 								parts = append(parts, w.Src(a))
 							}
 							emits = append(emits, strings.Join(parts, ","))
